@@ -97,11 +97,12 @@ RED_X = dict(shift=[1e3], affine=[("ramp", 10.0)], glob=[-3.0])
 
 
 def _edges(sym, f, center, std, P):
-    """edges applicable at the symbolic node `sym` on field f."""
+    """edges applicable at the symbolic node `sym` on field f; `std` is the per-field list of standardize flags: an edge
+    on field f is licensed by field f's OWN options, whatever the other field's options are."""
     out = []
     if center:
         out += [dict(kind="shift", f=f, mag=m) for m in P["shift"]]
-    if std:
+    if std[f]:
         seen = set()
         for pat, off in P["affine"]:
             off = off if center else 0.0
@@ -143,6 +144,21 @@ def _paths(start, nf, center, std, P1, P2):
     return out
 
 
+def _both(start, center, std, P):
+    """cross-set: the same edge applied to X and then to Y (each licensed by its own field's options)."""
+    out = []
+    for e0 in _edges(start, 0, center, std, P):
+        e1 = dict(e0, f=1)
+        if e1 in _edges(_step(start, e0), 1, center, std, P):
+            out.append([e0, e1])
+    if std[0] != std[1]:  # mixed flags: each field rescaled by the edge its own option licenses (affine where standardised, global where not)
+        for e0 in _edges(start, 0, center, std, P):
+            for e1 in _edges(start, 1, center, std, P):
+                if {e0["kind"], e1["kind"]} == {"affine", "global"}:
+                    out.append([e0, e1])
+    return out
+
+
 def _kind(path):
     return ">".join(e["kind"] for e in path)
 
@@ -151,7 +167,7 @@ def _mk(model, shape, spec, center, std, container, start, path, k, latname="lat
     nf = len(shape) - 1
     lats = lats or [DEFAULT_LATS[GRID[p][0]] for p in shape[1:]]
     c = dict(
-        model=model, shape=list(shape), spec=spec, center=center, standardize=std, container=container, latname=latname, lats=list(lats),
+        model=model, shape=list(shape), spec=spec, center=center, standardize=(list(std) if nf == 2 else bool(std)), container=container, latname=latname, lats=list(lats),
         n_modes=k, start=dict(w=list(start["w"]), cos=list(start["cos"])), path=path, depth=len(path), kind=_kind(path),
     )
     if nf == 2:
@@ -184,7 +200,7 @@ def cases(tier, seed):
                     if cont != "DA" and not (st["w"][0] or st["cos"][0]):
                         continue  # the container only matters where a weight field has to match it
                     p2 = RED if (st in depth2_starts and (cont == "DA" or thorough)) else None
-                    for path in _paths(st, 1, c, s, FULL, p2):
+                    for path in _paths(st, 1, c, [s], FULL, p2):
                         if cont != "DA" and not any(e["kind"] in ("fold", "cos2w") for e in path) and not thorough:
                             continue
                         for k in (kmodes or [_k_for(shape, spec)]):
@@ -241,39 +257,50 @@ def cases(tier, seed):
                         out.append(_mk(model, shape, "geometric", c, s, cont, st, cos_path + [dict(kind="fold", f=0)], k, latname=name, lats=[ls]))
 
     # ---------------------------------------------------------------- cross-set models
-    def cross(model, alpha, shape, stds, containers, starts, depth2_starts, pca="off", P1=FULL, names=("lat", "lat"), lats=None):
+    def cross(model, alpha, shape, stds, containers, starts, depth2_starts, pca="off", P1=FULL, both=None, lats=None):
+        """stds: list of per-field pairs [standardize_x, standardize_y]; both: parameter set for 'same edge on X and on Y' paths."""
         for s in stds:
             for cont in containers:
                 for st in starts:
                     if cont != "DA" and not (any(st["w"]) or any(st["cos"])):
                         continue
                     p2 = RED_X if (st in depth2_starts and cont == "DA") else None
-                    for path in _paths(st, 2, True, s, P1, p2):
+                    paths = _paths(st, 2, True, s, P1, p2)
+                    if both and not p2:
+                        paths += _both(st, True, s, both)
+                    for path in paths:
                         if cont != "DA" and not any(e["kind"] in ("fold", "cos2w") for e in path):
                             continue
                         out.append(_mk(model, shape, "geometric", True, s, cont, st, path, _k_for(shape, "geometric"), alpha=alpha, pca=pca, lats=lats))
 
-    S2 = _starts(2)
+    FF, TT, FT, TF = [False, False], [True, True], [False, True], [True, False]
+    STD4 = [FF, TT, FT, TF]
     x_all = dict(w=[True, True], cos=[True, True])
     x_none = dict(w=[False, False], cos=[False, False])
+    # every per-field option in all four (x, y) combinations: weights given for one field only, use_coslat for one field only
     x_mixed = [dict(w=[True, False], cos=[False, True]), dict(w=[False, True], cos=[True, False])]
+    S4 = [x_none, x_all] + x_mixed
+    S16 = [dict(w=[wx, wy], cos=[cx, cy]) for wx in (False, True) for wy in (False, True) for cx in (False, True) for cy in (False, True)]
     if not thorough:
-        cross("MCA", [1.0, 1.0], (9, 4, 3), [False], ["DA"], [x_none, x_all], [x_all])
-        cross("MCA", [1.0, 1.0], (9, 4, 3), [True], ["DA"], [x_all], [], P1=RED)
-        cross("MCA", [1.0, 1.0], (12, 6, 4), [False], ["DS", "LIST"], [x_all] + x_mixed, [], P1=RED_X)
-        cross("CPCCA", [0.5, 0.5], (9, 4, 3), [False], ["DA"], [x_all], [x_all], P1=RED)
-        cross("CPCCA", [0.5, 0.5], (9, 4, 3), [True], ["DA"], [x_all], [], P1=RED)
-        cross("CPCCA", [0.0, 1.0], (9, 4, 3), [False], ["DA"], [x_all], [], P1=RED)
+        cross("MCA", [1.0, 1.0], (9, 4, 3), [FF], ["DA"], [x_none, x_all], [])
+        cross("MCA", [1.0, 1.0], (9, 4, 3), STD4, ["DA"], S4, [], P1=RED_X, both=RED_X)
+        cross("MCA", [1.0, 1.0], (12, 6, 4), [FF], ["DS", "LIST"], [x_all] + x_mixed, [], P1=RED_X)
+        cross("CPCCA", [0.5, 0.5], (9, 4, 3), [FF], ["DA"], [x_all], [x_all], P1=RED)
+        cross("CPCCA", [0.5, 0.5], (9, 4, 3), [TT, FT, TF], ["DA"], x_mixed, [], P1=RED_X, both=RED_X)
+        cross("CPCCA", [0.0, 1.0], (9, 4, 3), [FF, TF], ["DA"], [x_all], [], P1=RED_X)
     else:
         for shape in ((9, 4, 3), (12, 6, 4)):
-            cross("MCA", [1.0, 1.0], shape, [False, True], ["DA", "DS", "LIST"], S2 + x_mixed, [x_none, x_all])
-        cross("MCA", [1.0, 1.0], (9, 4, 3), [False, True], ["DA"], [x_all], [x_all], pca="all", P1=RED)
+            cross("MCA", [1.0, 1.0], shape, [FF, TT], ["DA", "DS", "LIST"], S4, [x_none, x_all])
+        cross("MCA", [1.0, 1.0], (9, 4, 3), STD4, ["DA"], S16, [], P1=RED, both=RED)
+        cross("MCA", [1.0, 1.0], (12, 6, 4), [FT, TF], ["DA", "DS", "LIST"], S4, [], P1=RED_X, both=RED_X)
+        cross("MCA", [1.0, 1.0], (9, 4, 3), STD4, ["DA"], [x_all] + x_mixed, [x_all], pca="all", P1=RED)
         for ax in (0.0, 0.25, 0.5, 1.0):
             for ay in (0.0, 0.25, 0.5, 1.0):
                 main = (ax, ay) in ((0.5, 0.5), (0.0, 1.0), (1.0, 1.0))
-                cross("CPCCA", [ax, ay], (9, 4, 3), [False, True], ["DA", "LIST"] if main else ["DA"], [x_none, x_all] + x_mixed if main else [x_all],
+                cross("CPCCA", [ax, ay], (9, 4, 3), [FF, TT], ["DA", "LIST"] if main else ["DA"], S4 if main else [x_all],
                       [x_all] if main else [], P1=FULL if main else RED)
-        cross("CPCCA", [0.5, 0.5], (12, 6, 4), [False, True], ["DA"], [x_all], [x_all], P1=RED)
+                cross("CPCCA", [ax, ay], (9, 4, 3), [FT, TF], ["DA"], S4 if main else x_mixed, [], P1=RED_X, both=RED_X)
+        cross("CPCCA", [0.5, 0.5], (12, 6, 4), STD4, ["DA"], [x_all] + x_mixed, [x_all], P1=RED)
 
     for c in out:
         if "patterns" in c:
@@ -359,6 +386,8 @@ class Ctx:
         self.n = sh[0]
         self.nf = len(sh) - 1
         self.cplx = case["model"] == "ComplexEOF"
+        st = case["standardize"]
+        self.std = [bool(x) for x in st] if isinstance(st, (list, tuple)) else [bool(st)] * self.nf
         self.fields = [Field(self.n, p, case["latname"], case["lats"][i], case["container"], "xy"[i]) for i, p in enumerate(sh[1:])]
         self.base = [D.make_matrix(self.n, p, case["spec"], 1.0, self.cplx, seed, salt=80 + i) for i, p in enumerate(sh[1:])]
         self.W, self.u = [], []
@@ -452,7 +481,7 @@ class Ctx:
         case = self.case
         k = case["n_modes"]
         pca = case["pca"] != "off"
-        kw = dict(n_modes=k, standardize=case["standardize"], use_coslat=[node[0]["cos"], node[1]["cos"]], use_pca=pca, n_pca_modes="all",
+        kw = dict(n_modes=k, standardize=list(self.std), use_coslat=[node[0]["cos"], node[1]["cos"]], use_pca=pca, n_pca_modes="all",
                   random_state=5, solver="full")
         if case["model"] == "MCA":
             m = xe.cross.MCA(**kw)
@@ -493,18 +522,18 @@ class Ctx:
         for f in range(self.nf):
             M = node[f]["M"]
             cl = self.fields[f].coslat if node[f]["cos"] else None
-            P = R.preprocess(M, case["center"], case["standardize"], cl, node[f]["w"])
+            P = R.preprocess(M, case["center"], self.std[f], cl, node[f]["w"])
             s = np.linalg.svd(P, compute_uv=False)
             scale = np.ones(M.shape[1])
             sd = np.sqrt(np.mean(np.abs(M - M.mean(axis=0, keepdims=True)) ** 2, axis=0))
-            if case["standardize"]:
+            if self.std[f]:
                 scale = scale / np.maximum(sd, 1e-300)
             if cl is not None:
                 scale = scale * cl
             if node[f]["w"] is not None:
                 scale = scale * node[f]["w"]
             delta = EPS * np.linalg.norm(np.abs(M) * scale[None, :]) / max(s[0], 1e-300)
-            per.append(dict(P=P, s=s, delta=delta, sd_min=float(sd.min()) if sd.size else 0.0))
+            per.append(dict(P=P, s=s, delta=delta, sd_min=(float(sd.min()) if sd.size else 0.0) if self.std[f] else np.inf))
         if self.nf == 1:
             return dict(s=per[0]["s"], delta=per[0]["delta"], sd_min=per[0]["sd_min"])
         N = self.n
@@ -708,7 +737,7 @@ def run_case(case, seed):
         nodes.append(nd)
         facs.append(c)
     conds = [ctx.conditioning(nd) for nd in nodes]
-    if case["standardize"] and min(cd["sd_min"] for cd in conds) < 1e-6:
+    if min(cd["sd_min"] for cd in conds) < 1e-6:  # only standardised fields report a finite sd_min
         return dict(outcome="skipped:std_floor", nontrivial=False, states=0, transitions=0, traces=0)
     fits = [ctx.fit(nd) for nd in nodes]
     alpha = [float(x) for x in case.get("alpha", [1.0])]
